@@ -13,11 +13,12 @@ import (
 func init() { register("body", runBody) }
 
 type bodyCtx struct {
-	doc   *document.Document
-	other *document.Document // source of "foreign" paragraph handles
-	uid   map[interface{}]int
-	byUID map[int]*document.Paragraph
-	next  int
+	doc     *document.Document
+	other   *document.Document // source of "foreign" paragraph handles
+	uid     map[interface{}]int
+	byUID   map[int]*document.Paragraph
+	next    int
+	sameCfg *document.ImageConfig // config object shared by the AddImage(same) calls of the behaviour
 }
 
 func kindOf(el interface{}) string {
@@ -195,7 +196,29 @@ func runBody(c Case, emit Emitter) {
 				}
 				t.SetCellText(0, 0, tok)
 			case "AddImage":
+				if op.Bool("same") {
+					// the same bytes, format and config object as every other such call of the behaviour
+					if ctx.sameCfg == nil {
+						ctx.sameCfg = &document.ImageConfig{Size: &document.ImageSize{Width: 20, Height: 10}, AltText: "same"}
+					}
+					if _, err := d.AddImageFromData(tinyPNG(7), "same.png", document.ImageFormatPNG, 2, 2, ctx.sameCfg); err != nil {
+						return "err"
+					}
+					break
+				}
 				if _, err := d.AddImageFromData(tinyPNG(i), tok+".png", document.ImageFormatPNG, 2, 2, nil); err != nil {
+					return "err"
+				}
+			case "CreateMultiLevelList":
+				var items []document.ListItem
+				for k := 1; k <= op.Int("n"); k++ {
+					txt := fmt.Sprintf("%s.%d", tok, k)
+					if k == op.Int("blank") {
+						txt = []string{"", " ", "\t"}[i%3]
+					}
+					items = append(items, document.ListItem{Text: txt, Level: k % 2, Type: document.ListTypeNumber})
+				}
+				if err := d.CreateMultiLevelList(items); err != nil {
 					return "err"
 				}
 			case "AddListItem":
